@@ -832,3 +832,190 @@ func TestVerif_C18_ResyncTimers(t *testing.T) {
 	}
 	rep.Note("C18", fmt.Sprintf("resync-timer sequences: %d", n))
 }
+
+// A handler added while events are flowing: the replay ("everything already cached when it is added")
+// and the registration ("every later event") leave no gap. The new handler's first replay callback
+// is held until an object has been created and another deleted behind it (the informer's store
+// already shows both changes); afterwards the handler must know exactly the objects that exist.
+func TestVerif_C18_AddDuringEvents(t *testing.T) {
+	rep := sim.R()
+	for _, cached := range []int{2, 4} {
+		for _, resync := range []bool{false, true} {
+			for _, change := range []string{"create", "delete", "create+delete", "update"} {
+				cached, resync, change := cached, resync, change
+				id := fmt.Sprintf("c18-add-during-events-o%d-resync%v-%s", cached, resync, change)
+				if !sim.WantCase(id) {
+					continue
+				}
+				t.Run(id, func(t *testing.T) {
+					t.Parallel()
+					rep.Begin("C18", id)
+					runC18AddDuringEvents(rep, id, cached, resync, change)
+				})
+			}
+		}
+	}
+}
+
+func runC18AddDuringEvents(rep *sim.Reporter, id string, cached int, resync bool, change string) {
+	e, err := newC18Env()
+	if err != nil {
+		rep.Inconclusive("C18", id, err.Error())
+		return
+	}
+	defer e.close()
+	info := sim.WidgetInfo
+	gvr := info.GVR()
+	for i := 0; i < cached; i++ {
+		o := sim.NewObject(info, "ns", fmt.Sprintf("o%d", i))
+		o["spec"] = sim.Obj{"n": int64(i)}
+		e.sim.MustCreate(gvr, o)
+	}
+	a, err := e.factory.Resource(info.APIVersion(), info.Resource)
+	if err != nil {
+		rep.Inconclusive("C18", id, err.Error())
+		return
+	}
+	defer a.Close()
+	first := &recHandler{id: "first"}
+	a.Informer().AddEventHandler(first.handler())
+	waitFor := func(cond func() bool) bool {
+		deadline := time.Now().Add(20 * time.Second)
+		for !cond() {
+			if time.Now().After(deadline) {
+				return false
+			}
+			time.Sleep(200 * time.Microsecond)
+		}
+		return true
+	}
+	listed := func() map[string]bool {
+		m := map[string]bool{}
+		l, _ := a.Lister().List(labels.Everything())
+		for _, o := range l {
+			m[o.GetName()] = true
+		}
+		return m
+	}
+	if !waitFor(func() bool { return a.Informer().HasSynced() && len(listed()) == cached }) {
+		rep.Inconclusive("C18", id, "informer never synced")
+		return
+	}
+	b, err := e.factory.Resource(info.APIVersion(), info.Resource)
+	if err != nil {
+		rep.Inconclusive("C18", id, err.Error())
+		return
+	}
+	defer b.Close()
+	second := &recHandler{id: "second"}
+	entered, release := make(chan struct{}), make(chan struct{})
+	var once sync.Once
+	inner := second.handler()
+	held := cache.ResourceEventHandlerFuncs{
+		AddFunc: func(o interface{}) {
+			once.Do(func() { close(entered); <-release })
+			inner.OnAdd(o, false)
+		},
+		UpdateFunc: func(old, cur interface{}) {
+			once.Do(func() { close(entered); <-release })
+			inner.OnUpdate(old, cur)
+		},
+		DeleteFunc: func(o interface{}) { inner.OnDelete(o) },
+	}
+	done := make(chan struct{})
+	go func() {
+		if resync {
+			b.Informer().AddEventHandlerWithResyncPeriod(held, time.Hour)
+		} else {
+			b.Informer().AddEventHandler(held)
+		}
+		close(done)
+	}()
+	select {
+	case <-entered:
+	case <-time.After(20 * time.Second):
+		rep.Inconclusive("C18", id, "the replay to the new handler never began")
+		close(release)
+		return
+	}
+	// behind the held replay: the world changes, and the informer's own store follows
+	wantNew, wantGone := "", ""
+	if strings.Contains(change, "create") {
+		wantNew = "newcomer"
+		o := sim.NewObject(info, "ns", wantNew)
+		o["spec"] = sim.Obj{"n": int64(99)}
+		e.sim.MustCreate(gvr, o)
+	}
+	if strings.Contains(change, "delete") {
+		wantGone = fmt.Sprintf("o%d", cached-1)
+		e.sim.ExtDelete(gvr, "ns", wantGone, "")
+	}
+	if change == "update" {
+		e.sim.ExtMutate(gvr, "ns", "o0", func(o sim.Obj) { sim.SetNested(o, int64(1234), "spec", "n") })
+	}
+	wantRV := ""
+	if cur := e.sim.Peek(gvr, "ns", "o0"); cur != nil {
+		wantRV = sim.MetaString(cur, "resourceVersion")
+	}
+	storeFollowed := waitFor(func() bool {
+		l := listed()
+		if wantNew != "" && !l[wantNew] {
+			return false
+		}
+		if wantGone != "" && l[wantGone] {
+			return false
+		}
+		if change == "update" {
+			o, err := a.Lister().Namespace("ns").Get("o0")
+			return err == nil && o.GetResourceVersion() == wantRV
+		}
+		return true
+	})
+	close(release)
+	select {
+	case <-done:
+	case <-time.After(20 * time.Second):
+		rep.Inconclusive("C18", id, "AddEventHandler never returned")
+		return
+	}
+	if !storeFollowed {
+		rep.Inconclusive("C18", id, "the informer's store did not follow the change while the replay was held")
+		return
+	}
+	// let the dispatch finish: the first handler and the second agree with the store in the end
+	want := e.sim.Visible(gvr) // key -> resourceVersion, as delivered to watchers
+	agree := func(h *recHandler) bool { return reflect.DeepEqual(h.shadow(), want) }
+	waitFor(func() bool { return agree(first) && agree(second) })
+	wit := map[string]interface{}{"cached": cached, "ownResyncPeriod": resync, "change": change, "store": want, "second": second.shadow(), "first": first.shadow()}
+	if !agree(first) {
+		rep.Inconclusive("C18", id, fmt.Sprintf("the handler that was registered all along does not agree with the store: %v vs %v", first.shadow(), want))
+		return
+	}
+	if !agree(second) {
+		got := second.shadow()
+		var missing, stale []string
+		for k, rv := range want {
+			if grv, ok := got[k]; !ok {
+				missing = append(missing, k)
+			} else if grv != rv {
+				stale = append(stale, k)
+			}
+		}
+		for k := range got {
+			if _, ok := want[k]; !ok {
+				stale = append(stale, k+"(deleted)")
+			}
+		}
+		sort.Strings(missing)
+		sort.Strings(stale)
+		sig := "handler-added-during-events:missed-"
+		switch {
+		case len(missing) > 0:
+			sig += "add"
+		default:
+			sig += "change"
+		}
+		rep.Violation("C18", id, sig, fmt.Sprintf("a handler added while the cache was changing ended up not knowing %v and holding stale state for %v (replay and registration left a gap)", missing, stale), wit)
+	}
+	rep.Case("C18", id, true, id, wit)
+}
